@@ -49,7 +49,7 @@ META = {
     "2*outcomes*max|f|/(alpha*shots) with shots = 2^16; classical cases (X/CX circuits) additionally compared with the model. non-trivial = stack contains a wrapper; "
     "distinct = (kind, stack, circuits, parameters, operator)",
     "trusted_base": ["Lean 4 kernel; axioms per theorem under coverage.theorems", "harness/corr_C03.py, fakes.py, Driver/Pipeline.lean", "Qiskit transpiler/Statevector"],
-    "assumptions": ["pass managers are semantics preserving and report their layout in circuit.layout", "primitives answer each pub independently of the rest of the batch"],
+    "assumptions": ["pass managers are semantics preserving and report their layout in circuit.layout", "a pass manager is run by one thread at a time (the wrappers' lock, finding F15)", "primitives answer each pub independently of the rest of the batch"],
 }
 
 SHOTS = 2**16
@@ -398,7 +398,9 @@ def one_case(ctx, rng, kind, stack, classical, tag):
         try:
             results[i] = ev.evaluate_circuits(callers[i][0], callers[i][1])
         except Exception as e:  # noqa: BLE001
-            errors.append(repr(e)[:200])
+            import traceback
+
+            errors.append(repr(e)[:200] + " @ " + " <- ".join(f"{f.name}:{f.lineno}" for f in traceback.extract_tb(e.__traceback__)[-6:]))
 
     if n_callers == 1:
         call(0)
@@ -498,6 +500,62 @@ def one_case(ctx, rng, kind, stack, classical, tag):
                     ctx.disagree("pipeline.value (evaluator value on a classical circuit)", inp, got, mv)
 
 
+def concurrent_transpile_case(ctx, rng, threads, iters):
+    """many threads evaluate through transpiling(batching(exact primitive)) with ONE device pass manager, released together by a barrier in every
+    iteration (the solver's own stack under a ThreadPoolExecutor): nothing may raise and every value must be the objective (finding F15)"""
+    from qiskit.quantum_info import SparsePauliOp, Statevector
+    from qiskit.transpiler import CouplingMap, generate_preset_pass_manager
+
+    from queasars.circuit_evaluation.circuit_evaluation import OperatorCircuitEvaluator
+    from queasars.circuit_evaluation.mutex_primitives import BatchingMutexEstimator
+    from queasars.circuit_evaluation.transpiling_primitives import TranspilingEstimatorV2
+    from queasars.minimum_eigensolvers.evqe.evolutionary_algorithm.individual import EVQEIndividual
+
+    RecEstimator, _ = make_fakes()
+    nq = 3
+    lvl = rng.choice([0, 1])
+    layout = rng.sample(range(4), 3)
+    pm = generate_preset_pass_manager(optimization_level=lvl, coupling_map=CouplingMap.from_line(4), initial_layout=layout, seed_transpiler=rng.randrange(100))
+    op = SparsePauliOp(["ZZI", "IXZ", "YIY"], [1.0, 0.5, -0.75])
+    ev = OperatorCircuitEvaluator(TranspilingEstimatorV2(BatchingMutexEstimator(RecEstimator(), waiting_duration=0.003), pm), None, op, None)
+    seeds = [[rng.randrange(2**31) for _ in range(iters)] for _ in range(threads)]
+    inp = {"kind": "concurrent_transpile", "threads": threads, "iterations": iters, "level": lvl, "initial_layout": layout}
+    ctx.case(inp, nontrivial=True, tags=["concurrent-transpile", f"threads:{threads}"])
+    barrier = threading.Barrier(threads)
+    problems = []
+
+    def work(t):
+        for i in range(iters):
+            try:
+                barrier.wait(30)
+            except threading.BrokenBarrierError:
+                return
+            r = __import__("random").Random(seeds[t][i])
+            xs = [EVQEIndividual.random_individual(nq, r.randint(1, 3), True, r.randrange(2**31)) for _ in range(3)]
+            try:
+                got = ev.evaluate_circuits([x.get_parameterized_quantum_circuit() for x in xs], [list(x.get_parameter_values()) for x in xs])
+                for x, g in zip(xs, got):
+                    want = float(np.real(Statevector(x.get_quantum_circuit()).expectation_value(op)))
+                    if abs(float(np.real(g)) - want) > 1e-9:
+                        problems.append(("value", {"thread": t, "iteration": i, "got": float(np.real(g)), "expected": want}))
+            except Exception as e:  # noqa: BLE001
+                problems.append(("raise", {"thread": t, "iteration": i, "error": repr(e)[:160]}))
+
+    ths = [threading.Thread(target=work, args=(t,), daemon=True) for t in range(threads)]
+    for t in ths:
+        t.start()
+    for t in ths:
+        t.join(180)
+    if any(t.is_alive() for t in ths):
+        barrier.abort()
+        problems.append(("hang", {}))
+    for kind, obs in problems[:1]:
+        what = {"raise": "an evaluator raised when several threads evaluated through the transpiling wrapper at the same time",
+                "value": "an evaluator's value differs from the objective when several threads evaluated through the transpiling wrapper at the same time",
+                "hang": "concurrent evaluations through the transpiling wrapper did not return"}[kind]
+        ctx.violate(what, inp, {"first": obs, "count": len(problems)}, key="concurrent-transpile:" + kind)
+
+
 def batching_slices(ctx, rng):
     """a batching wrapper under concurrent callers: every caller's slice vs the model's `Stack.wrap (.batching before after)`"""
     from qiskit.circuit import Parameter, QuantumCircuit
@@ -572,6 +630,10 @@ def run(ctx):
         if ctx.out_of_time():
             break
         fault_case(ctx, rng, kinds[i % 3], ["batching", "T:level0+batching", "mutex", "T:routing+batching"][i % 4])
+    for _ in range(ctx.n(1, 6)):
+        if ctx.out_of_time():
+            break
+        concurrent_transpile_case(ctx, rng, 6, ctx.n(40, 120))
     import wrapper_corr
 
     wrapper_corr.run_wrapper_level(ctx, "C03", 10, 150)
